@@ -58,7 +58,7 @@ def build(al, case, route):
 
 _INPUT_ROUTE = [0]
 ROUTES = ("list", "dict", "zexpr", "dendelay")
-MEMROUTES = ("list", "tuple", "gen", "callable", "longer")
+MEMROUTES = ("list", "tuple", "gen", "callable", "longer", "stream")
 
 
 def run_case(al, case, n, maxlen, maxmem, route, memroute, zero_num=0):
@@ -87,6 +87,8 @@ def run_case(al, case, n, maxlen, maxmem, route, memroute, zero_num=0):
             # "a callable memory is asked for the needed size": the sizes it is called with are recorded
             del ASKED[:]
             kw["memory"] = lambda size: (ASKED.append(size), [LinForm.sym(maxlen + 1 + j) for j in range(1, size + 1)])[1]
+        elif memroute == "stream":
+            kw["memory"] = al.Stream(list(items))       # a Stream is iterable AND callable: it is read, not called
         elif memroute == "longer":
             kw["memory"] = items + [LinForm.sym(maxlen + 1 + maxmem)] * 2
     # the input in one of its legal container forms (one-shot iterators included), cycled per call
@@ -168,7 +170,7 @@ def m2(ctx, al, module, cfg, maxlen, maxmem):
         if noncausal(case) and st["err"] == "none":
             continue                      # the refusal is observed on the Refuse successor
         routes = ROUTES if final else (ROUTES[nstates % 3],)
-        memroutes = MEMROUTES if (final and case["mem"] != "none") else (MEMROUTES[nstates % 5],)
+        memroutes = MEMROUTES if (final and case["mem"] != "none") else (MEMROUTES[nstates % len(MEMROUTES)],)
         for route in routes:
             for memroute in memroutes:
                 for znum in ((0, 0.0) if case["zero"] == "num" else (0,)):
